@@ -210,6 +210,11 @@ class CaseInsensitiveDefaultDict(CaseInsensitiveDict):
         except KeyError:
             return self.default_factory()
 
+    def lower(self):
+        result = type(self)(self.default_factory)
+        result.update(self.items_lower())
+        return result
+
 
 class OrderedCaseInsensitiveDict(CaseInsensitiveDict):
     """ An (incomplete) ordered case-insensitive dict.
